@@ -10,9 +10,8 @@ open FV
 out-of-bounds or misaligned access) and always keeps the buffer length; a misaligned buffer is refused with
 `BadAlign` and left untouched; an aligned buffer shorter than `MIN_SIZE` is refused with `InsufficientSize` and left
 untouched; any other failure is `InsufficientSize`/`BadAlign` too; and `Ok` means the bytes validate (C03).
-Named `_partial` because one clause of C15 is proved only for `FlatVec` (`C15_vec_accepts_iff_fits`): that a buffer
-which *can* hold the content is accepted. -/
-theorem C15_emplace_total_partial (t : Ty) (h : t.WF) (i : Init) (hw : InitWT t i) (s : Slice) :
+That a buffer which *can* hold the content is accepted is `C15_accepts_iff_fits` below. -/
+theorem C15_emplace_total (t : Ty) (h : t.WF) (i : Init) (hw : InitWT t i) (s : Slice) :
     ∃ o, emplace t i s = .ok o ∧ o.bytes.length = s.len ∧
       (s.addr % t.dict.align ≠ 0 → o = ⟨s.bytes, .error ⟨.badAlign, 0⟩⟩) ∧
       (s.addr % t.dict.align = 0 → s.len < t.dict.minSize → o = ⟨s.bytes, .error ⟨.insufficientSize, 0⟩⟩) ∧
@@ -35,7 +34,46 @@ theorem C15_emplace_total_partial (t : Ty) (h : t.WF) (i : Init) (hw : InitWT t 
       fun h => by cases h⟩
     intro e he; simp only [Except.error.injEq] at he; rw [← he]; exact Or.inr rfl
 
-/-- **Acceptance is exact for `FlatVec`.** `flat_vec![…]` / `FromArray` into an aligned buffer holding at least the header
+/-- **C15, acceptance is exact, for every type and every emplacer.** `new_in_place` into any buffer returns `Ok` **iff** the
+buffer is aligned, the content is representable (`Rep`: lengths within the length type, FlexVec slots below `L::MAX`) and the
+buffer has at least as many bytes as the specified content occupies (`sizeSpec`, computed from the type and the content alone;
+never below `MIN_SIZE`). In particular: the boundary length is accepted, one byte less is refused, and acceptance is monotone
+in the buffer length. -/
+theorem C15_accepts_iff_fits (t : Ty) (h : t.WF) (i : Init) (hw : InitWT t i) (s : Slice) :
+    ∃ o, emplace t i s = .ok o ∧
+      (o.res = .ok () ↔ s.addr % t.dict.align = 0 ∧ Rep t i ∧ sizeSpec t i ≤ s.len) := by
+  obtain ⟨hacc, hge⟩ := emplaceU_acc i t h hw
+  by_cases hal : s.addr % t.dict.align = 0
+  · by_cases hlen : s.len < t.dict.minSize
+    · have hc : checkAlignMin t.dict.align t.dict.minSize s = .err ⟨.insufficientSize, 0⟩ := by
+        unfold checkAlignMin; rw [if_neg (by simpa using hal), if_pos hlen]
+      refine ⟨⟨s.bytes, .error ⟨.insufficientSize, 0⟩⟩, by simp only [emplace, hc], ?_⟩
+      constructor
+      · intro hh; cases hh
+      · intro hh; omega
+    · have hc : checkAlignMin t.dict.align t.dict.minSize s = .ok () := checkAlignMin_ok.2 ⟨hal, by omega⟩
+      obtain ⟨o, ho, _⟩ := emplaceU_ok i t h hw s hal (by omega)
+      refine ⟨o, by simp only [emplace, hc, ho], ?_⟩
+      rw [(hacc s hal (by omega) o ho).1]
+      constructor
+      · intro hh; exact ⟨hal, hh⟩
+      · intro hh; exact hh.2
+  · have hc : checkAlignMin t.dict.align t.dict.minSize s = .err ⟨.badAlign, 0⟩ := by
+      unfold checkAlignMin; rw [if_pos hal]
+    refine ⟨⟨s.bytes, .error ⟨.badAlign, 0⟩⟩, by simp only [emplace, hc], ?_⟩
+    constructor
+    · intro hh; cases hh
+    · intro hh; exact absurd hh.1 hal
+
+/-- non-vacuity, an unsized enum: `E1::C { a: 5, b: [1,2,3] }` occupies 12 bytes (tag 1, padding to the data offset 4, `a` 1,
+padding 1, length 2, elements 3 → 11, padded to the alignment 4); 12 bytes are accepted, 11 refused -/
+example : sizeSpec E1 (.uenum 2 [[5]] (some (.vecArr [[1],[2],[3]]))) = 12 := by decide
+example : (emplace E1 (.uenum 2 [[5]] (some (.vecArr [[1],[2],[3]]))) ⟨0, [9,9,9,9,9,9,9,9,9,9,9,9]⟩).bind (fun o => .ok o.res) = .ok (.ok ()) := by
+  decide +kernel
+example : (emplace E1 (.uenum 2 [[5]] (some (.vecArr [[1],[2],[3]]))) ⟨0, [9,9,9,9,9,9,9,9,9,9,9]⟩).bind (fun o => .ok o.res) =
+    .ok (.error ⟨.insufficientSize, 0⟩) := by decide +kernel
+
+/-- **Acceptance is exact for `FlatVec`** (in terms of slots). `flat_vec![…]` / `FromArray` into an aligned buffer holding at least the header
 succeeds **iff** the number of items is at most the capacity of that buffer (`min(slots, L::MAX)`): the boundary buffer
 length is accepted, one element slot less is refused. -/
 theorem C15_vec_accepts_iff_fits (et : Ty) (hL : Law et.dict) (sz : Nat) (hsz : et.dict.sized = some sz) (l : LenTy)
